@@ -166,7 +166,7 @@ class World:
                     nm = st.targets[0].id
                     if nm.startswith("_"):
                         continue
-                    v = ns[nm]
+                    v = unpoisoned(ns[nm])  # a member whose value is outside the subset: so is the whole table
                     if v in cls.enum_canon:
                         cls.enum_members[nm] = cls.enum_canon[v]  # alias
                     else:
